@@ -202,8 +202,63 @@ def graph_stream(ctx):
             ctx.count('create_graph')
 
 
+def partial_eval_stream(ctx):
+    """some layers stop updating their factors (sub-modules put in eval mode, frozen statistics) while others go on: what
+    every layer object holds — counted by the STORAGE behind each tensor, so that a factor that is a view into a larger
+    communication buffer counts that whole buffer — is what memory_usage() reports"""
+    import simdist
+    import torch
+    from kfac.preconditioner import KFACPreconditioner
+    rng = ctx.rng
+    for method in ('eigen', 'inverse'):
+        for sym in (False, True):
+            seed = rng.randrange(10**6)
+
+            def prog(rank, method=method, sym=sym, seed=seed):
+                torch.manual_seed(seed)
+                m = torch.nn.Sequential(torch.nn.Linear(4, 4), torch.nn.Tanh(), torch.nn.Linear(4, 3), torch.nn.Tanh(), torch.nn.Linear(3, 2))
+                p = KFACPreconditioner(m, compute_method=method, symmetry_aware=sym)
+                recs = []
+                for step in range(5):
+                    if step == 2:
+                        m[0].eval()
+                        m[2].eval()
+                    g = torch.Generator().manual_seed(seed + 100 * rank + step)
+                    m.zero_grad()
+                    m(torch.randn(6, 4, generator=g)).pow(2).mean().backward()
+                    p.step()
+                    rep = p.memory_usage()['total']
+                    seen, held = set(), 0
+                    for _, l in p._layers.values():
+                        for v_ in vars(l).values():
+                            if isinstance(v_, (torch.futures.Future, torch._C.Future)):
+                                v_ = v_.wait()
+                            if isinstance(v_, torch.Tensor) and v_.nelement():
+                                st = v_.untyped_storage()
+                                if st.data_ptr() not in seen:
+                                    seen.add(st.data_ptr())
+                                    held += st.nbytes()
+                    recs.append((rep, held))
+                return recs
+            wd, res = simdist.run_world(2, prog, seed=ctx.seed * 17 + seed % 1000)
+            case = {'stream': 'partial-eval', 'method': method, 'symmetry_aware': sym, 'seed': seed}
+            if wd.exceptions or wd.stalled or wd.errors:
+                ctx.fail(f'run failed: exc={wd.exceptions} stalled={wd.stalled} errors={wd.errors[:1]}', case, 'partial-eval-run')
+                continue
+            for rank in range(2):
+                bad = [(i, r_, h_) for i, (r_, h_) in enumerate(res[rank]) if r_ != h_]
+                if bad:
+                    i, r_, h_ = bad[0]
+                    ctx.fail(f'rank {rank}, step {i}: memory_usage() reports {r_} bytes, the storages behind the tensors the layers hold amount to {h_} '
+                             'bytes (a factor kept as a view pins a whole communication buffer)', case, 'memory-pinned-buffer')
+                    break
+            ctx.evaluations += 1
+            ctx.count('partial-eval')
+
+
 def run(ctx):
     graph_stream(ctx)
+    partial_eval_stream(ctx)
     kfacsim.run_batch(ctx, gen_cfgs(ctx, ctx.budget(80, 800)), STREAMS, oracles=(oracle,))
 
 
